@@ -181,15 +181,22 @@ class Verifier(ExprMixin, StmtMixin, CallMixin, LibMixin, FoldMixin, Executor):
             for (s_, v_) in rets:
                 self.final_state, self.final_results = s_, v_
                 for cl in c.of("ensures"):
+                    n0 = len(self.facts)
                     try:
                         g = self.eval_clause(cl, s_, results=v_, old=self.pre_state)
                     except ClauseError as ex:
+                        self.facts.cut(n0)
                         if cl["label"] not in unbound:
                             unbound.add(cl["label"])
                             self.obligations.append(Obligation("%s:ensures:%s" % (self.prog.short(func.full), cl["label"]), "ensures",
                                                                TRUE, FALSE, len(self.facts), cl.get("ln"), func, str(ex), cl.get("canary")))
                         continue
+                    extra = self.facts.cut(n0)
+                    for k_ in [k_ for k_ in self.fact_pcs if k_ >= n0]:
+                        del self.fact_pcs[k_]
+                    self.fp_defs = set(i_ for i_ in self.fp_defs if i_ < n0)
                     self.oblige_final(s_, "ensures", cl["label"], g, cl.get("ln"), cl["text"], cl.get("canary"))
+                    self.obligations[-1].extra = extra
             return self.obligations
         merged, vals = None, None
         for (s_, v_) in rets:
@@ -207,13 +214,20 @@ class Verifier(ExprMixin, StmtMixin, CallMixin, LibMixin, FoldMixin, Executor):
         self.final_results = vals
         if c is not None:
             for cl in c.of("ensures"):
+                n0 = len(self.facts)
                 try:
                     g = self.eval_clause(cl, merged, results=vals, old=self.pre_state)
                 except ClauseError as ex:
+                    self.facts.cut(n0)
                     self.obligations.append(Obligation("%s:ensures:%s" % (self.prog.short(func.full), cl["label"]), "ensures",
                                                        TRUE, FALSE, len(self.facts), cl.get("ln"), func, str(ex), cl.get("canary")))
                     continue
+                extra = self.facts.cut(n0)
+                for k_ in [k_ for k_ in self.fact_pcs if k_ >= n0]:
+                    del self.fact_pcs[k_]
+                self.fp_defs = set(i_ for i_ in self.fp_defs if i_ < n0)
                 self.oblige_final(merged, "ensures", cl["label"], g, cl.get("ln"), cl["text"], cl.get("canary"))
+                self.obligations[-1].extra = extra
         return self.obligations
 
     def oblige_final(self, st, kind, label, goal, ln, text, canary=False):
@@ -320,4 +334,5 @@ def build_vc(ex, ob):
             if conflict:
                 continue
         hyps.append(f)
+    hyps.extend(getattr(ob, "extra", None) or [])
     return hyps, ob.pc, ob.goal
